@@ -185,18 +185,26 @@ def generate(rng, seed, size):
     # the identifier alone (verbatim). One of them is moved in front of all other enums, one stays behind them: whatever an
     # expansion remembers about `raw__mode` under some style must not reach an enum that has no style (or the reverse).
     n_shared = 0 if minimal else 2
-    for ei in range(target + n_shared):
-        shared_enum = ei >= target
+    # and three more hold nothing but NAMED variants whose width / precision come from other fields (`{x:w$.p$}`): strum
+    # binds `x` explicitly and rustc captures `w` and `p` from the match arm's bindings. They compile on the pinned tree, the
+    # property does not promise that they do, so they are marked `optional`: a tree on which only optional enums stop
+    # compiling is decided by the rest of the corpus (see the driver).
+    n_optional = 0 if robust else 3
+    for ei in range(target + n_shared + n_optional):
+        shared_enum = target <= ei < target + n_shared
+        optional_enum = ei >= target + n_shared
         ename = "D%d" % ei
         block_start = len(out)
-        out.append("// @case-begin %s\n" % ename)
+        out.append("// @case-begin %s%s\n" % (ename, " optional" if optional_enum else ""))
         prefix = rng.choice(PREFIXES)
         nvar = rng.randint(1, 7)
         if shared_enum:
             prefix, nvar = None, len(SHARED_IDENTS)
+        if optional_enum:
+            prefix, nvar = None, 1
         # serialize_all: only together with identifiers whose word splitting is unambiguous (casing.py)
         style = rng.choice(casing.STYLES) if (rng.random() < 0.3 and not minimal) else None
-        if shared_enum:
+        if shared_enum or optional_enum:
             style = None
         # systematic part: the first enums cover every serialize_all style, each with a variant named by its
         # (non-ASCII) identifier alone
@@ -292,12 +300,14 @@ def generate(rng, seed, size):
             variants.append(v)
         # width and precision taken from OTHER fields of the variant (`{0:1$}`, `{x:w$.p$}`): format! binds them by
         # position or by name like any other argument (own PRNG stream: every other choice stays as it was)
-        if not robust and ei % 5 == 2 and not (11 <= ei < 16) and not shared_enum:
+        if not robust and ((ei % 5 == 2 and not (11 <= ei < 16) and not shared_enum) or optional_enum):
             import random as _r
             wr = _r.Random("c17-widthargs-%d-%d" % (seed, ei))
-            for _ in range(wr.randint(1, 2)):
+            if optional_enum:
+                variants = []
+            for _ in range(wr.randint(1, 2) if not optional_enum else 4):
                 vt = wr.choice(["i64", "String", "f64", "char", "bool", "&'static str", "u8"])
-                shape = wr.choice(["t_w", "t_w", "t_wp", "t_p", "n_w", "n_wp", "n_wp_shuffled"])
+                shape = wr.choice(["t_w", "t_w", "t_wp", "t_p"] if not optional_enum else ["n_w", "n_wp", "n_wp_shuffled"])
                 if shape in ("t_wp", "t_p", "n_wp", "n_wp_shuffled"):
                     vt = wr.choice(["String", "f64", "f64", "&'static str"])
                 al = wr.choice(["", ">", "^", "<", "\u00e9<", "*^"])
@@ -327,7 +337,7 @@ def generate(rng, seed, size):
             # systematic: enums 11..15 have fixed names only and a prefix with braces in it
             # (an unmatched closing brace, or `{x}`, in the prefix is rejected by the macro: outside the domain)
             prefix = ["{", "{{x", "x{", "{{", "é{"][ei - 11]
-        elif not robust and not shared_enum:
+        elif not robust and not shared_enum and not optional_enum:
             r = rng.random()
             if r < 0.08 and not has_interp:
                 prefix = rng.choice(["{", "{{x", "x{"])
@@ -342,7 +352,7 @@ def generate(rng, seed, size):
         decl = "<'a>" if uses_lt else ""
         inst = "<'static>" if uses_lt else ""
         # a type parameter (never displayed: Display is derived without bounds) in a fixed-name variant
-        if not uses_lt and not robust and not shared_enum and rng.random() < 0.12:
+        if not uses_lt and not robust and not shared_enum and not optional_enum and rng.random() < 0.12:
             decl, inst = "<T>", "<u8>"
             gv = dict(ident="Gen%d" % len(variants), kind=rng.choice(["tuple", "named"]), disabled=False, attrs=[], fixed=None,
                       literal=None, tys=["T"], fnames=["gen_field"], ref=None)
